@@ -27,7 +27,7 @@ MANIFEST = {
              'iteration; index bookkeeping (disp_auth_idx_entry etc.) is taken as the code computes it.'),
 }
 EXPLANATION = 'Gate formulas of TrainDisp::advance as named-sub-term specifications of the SVN terms of one loop iteration.'
-RULES = ['C04-0.start', 'C04-1.direction', 'C04-2.lockout', 'C04-3.exit', 'C04-4.entry', 'C04-5.offset', 'C04-6.clear', 'C04-7.occupancy', 'C04-8.index', 'C04-9.blocked', 'C04-10.sentinel', 'C04-11.cursor']
+RULES = ['C04-0.start', 'C04-1.direction', 'C04-2.lockout', 'C04-3.exit', 'C04-4.entry', 'C04-5.offset', 'C04-6.clear', 'C04-7.occupancy', 'C04-8.index', 'C04-9.blocked', 'C04-10.sentinel', 'C04-11.cursor', 'C04-12.lockouts']
 ASSUMPTIONS = ['index bookkeeping of dispatch nodes and authorities is as computed by the code (not decided)']
 
 FID = 'TrainDisp::advance'
@@ -474,6 +474,10 @@ def occupancy(ctx, b, an):
         from .common import RuleProxy
         from . import C05
         C05.cursor(RuleProxy(ctx, {'C05-6.cursor': 'C04-11.cursor'}))
+        # the mutually-exclusive declarations the gates read (`link_idxs_lockout`) are those of the network file in either layout:
+        # the legacy conversion carries every shared field over (clause of C16-5)
+        from . import C16
+        C16.legacy(RuleProxy(ctx, {'C16-5.legacy': 'C04-12.lockouts'}))
     for fld in sorted(adv & rew):
         vals = {show(val)[:20] for bb, path, val, span in ran.stores_log if path[0] == ('obj', 2) and path[-1] == ('f', fld)}
         ctx.check(vals <= {'INF', '0'}, R, 'TrainDisp::rewind|' + fld, 'rewind resets %s to its "not yet" value' % fld, 'reset values %s' % sorted(vals), ctx.where(rb))
